@@ -257,6 +257,30 @@ theorem attrs_visible_at_hooks (app : App) (rq : Req) (a : Attrs) (d : Option Ro
     simp only [hroot, hnr, ht]
     rfl
 
+/-- **The lookup classifies the context as it is when `ContextFound` has been sent** (`RootDecl.sro` is what every resource
+provides once the last ContextFound subscriber has run — the harness snapshots it there through zope.interface and re-reads it in
+the view body): the last hook of a request that reaches the lookup is `ContextFound`, and the resolution order, the lineage and
+the policy key of the record handed to C03's lookup are those of the attributes visible at that hook — nothing is taken
+earlier (seed C03-6 computes `context_iface` before the notification: caught by the probed table and by run-time marking). -/
+theorem lookup_uses_classification_at_context_found (app : App) (rq : Req) (a : Attrs) (d : Option RouteDecl) (root : RootDecl)
+    (t : Trav.Result) (hroot : app.roots[(rootIndex app d).1]? = some root) (hnr : root.raises = none)
+    (ht : Trav.traverser root.tree ⟨rq.pathInfo, rq.vroot, a.matchdict.map travMatchdict⟩ = .ok t) :
+    ∃ a2, (afterRoute app rq a d).2.1.getLast? = some (.contextFound, a2) ∧ (afterRoute app rq a d).1 = a2 ∧
+      (afterRoute app rq a d).2.2 = none ∧
+      (record app rq a2).ctxSro = app.ctxSro (rootIndex app d).1 t.context ∧
+      (record app rq a2).lineage = lineageOf app (rootIndex app d).1 t.context ∧
+      mainKey a2 = .res (rootIndex app d).1 t.context := by
+  refine ⟨{ a with root := some (rootIndex app d).1, trav := some t }, ?_, ?_, ?_, rfl, rfl, rfl⟩
+  · rw [attrs_visible_at_hooks app rq a d root t hroot hnr ht]; rfl
+  all_goals
+    unfold afterRoute
+    revert hroot ht
+    cases rootIndex app d with
+    | mk ri hook =>
+      dsimp only
+      intro hroot ht
+      simp only [hroot, hnr, ht]
+
 /-- **The view is looked up with what routing and traversal found**: the record C03's lookup sees carries the request
 interface order of the matched route (`[route]` or `[route, IRequest]`, then `Interface`), the match dictionary of that
 route, the resolution order of the CONTEXT traversal found (not of the root) and the view name traversal found. -/
@@ -393,21 +417,30 @@ private def probeApp : App :=
   { routes := [⟨"rt0".toList, [.lit "/r/".toList, .ph "id".toList Rx.notSlashPlus], none, some 1, 1, 20, false⟩,
                ⟨"rt1".toList, [.lit "/t/".toList, .rest "traverse".toList], none, none, 2, 21, true⟩,
                ⟨"rt2".toList, [.lit "/x/".toList, .ph "id".toList Rx.notSlashPlus], none, some 2, 3, 22, false⟩],
-    roots := [⟨.mk true [("a".toList, .mk true [])], [([], [10, 0]), (["a".toList], [11, 0])], none⟩,
-              ⟨.mk true [("b".toList, .mk true [])], [([], [10, 0]), (["b".toList], [11, 0])], none⟩,
+    roots := [⟨.mk true [("a".toList, .mk true [])], [([], [10, 90, 90, 0]), (["a".toList], [11, 90, 90, 0])], none⟩,
+              ⟨.mk true [("b".toList, .mk true [])], [([], [10, 90, 90, 0]), (["b".toList], [11, 90, 90, 0])], none⟩,
               ⟨.mk true [], [], some valueError⟩],
     defaultRoot := 0,
     views := [⟨mkStmt 0 11 "v" [] .unset false false 1 (.respond) , 9⟩,
               ⟨mkStmt 1 0 "" [] .unset false false 2 (.respond) , 9⟩,
               ⟨mkStmt 3 52 "" [] .noPermissionRequired true true 3 (.respond) , 9⟩,
               ⟨mkStmt 0 45 "" [] .noPermissionRequired true true 4 (.respond) , 9⟩,
-              ⟨mkStmt 0 49 "" [] .noPermissionRequired true true 5 (.respond) , 9⟩],
+              ⟨mkStmt 0 49 "" [] .noPermissionRequired true true 5 (.respond) , 9⟩,
+              ⟨mkStmt 0 3 "m" [] .unset false false 6 (.respond) , 9⟩],
     world := { w0 with sec := ⟨false, false⟩ },
     urlDecode := ⟨49, [49, 50, 51, 52, 40, 0], false, none⟩, unicodeDecode := ⟨50, [50, 51, 52, 40, 0], false, none⟩,
     keyError := ⟨46, [46, 47, 40, 0], false, none⟩, allowed := [] }
 
 example : Route.compileRoute Rx.Ucd.ascii [] "/r/{id}".toList = .ok [.lit "/r/".toList, .ph "id".toList Rx.notSlashPlus] ∧
     Route.compileRoute Rx.Ucd.ascii [] "/t/*traverse".toList = .ok [.lit "/t/".toList, .rest "traverse".toList] := by decide
+
+/-- the same application in the request whose ContextFound subscriber marked the resource `a` with the marker interface
+(id 3): what `a` provides WHEN THE LOOKUP STARTS -/
+private def probeAppMarked : App :=
+  { probeApp with
+    roots := [⟨.mk true [("a".toList, .mk true [])], [([], [10, 90, 90, 0]), (["a".toList], [90, 3, 11, 90, 90, 0])], none⟩,
+              ⟨.mk true [("b".toList, .mk true [])], [([], [10, 90, 90, 0]), (["b".toList], [11, 90, 90, 0])], none⟩,
+              ⟨.mk true [], [], some valueError⟩] }
 
 private def probeReqs : List (String × Trav.Bytes) :=
   [("traversal", [47, 97, 47, 118]), ("route-factory", [47, 114, 47, 55]), ("route-traverse", [47, 116, 47, 97, 47, 118]),
@@ -427,12 +460,15 @@ def renderVal : Route.Val → String
   | .segs xs => "(" ++ String.intercalate "," (xs.map String.ofList) ++ ")"
 
 /-- a hook of the model as an observed event of the probe -/
-def renderStep (h : Hook) : Pyr.Gen.X01.Step :=
+def renderStep (app : App) (h : Hook) : Pyr.Gen.X01.Step :=
   ⟨hookName h.1, h.2.route, (h.2.matchdict.getD []).map (fun kv => (String.ofList kv.1, renderVal kv.2)), h.2.reqSro, h.2.root,
-   h.2.trav.map (fun t => t.context.map String.ofList), h.2.trav.map (fun t => String.ofList t.viewName)⟩
+   h.2.trav.map (fun t => t.context.map String.ofList), h.2.trav.map (fun t => String.ofList t.viewName),
+   match h.2.root, h.2.trav with
+   | some i, some t => app.ctxSro i t.context
+   | _, _ => []⟩
 
-def renderOutcome (o : Outcome) : List Pyr.Gen.X01.Step × (String × Nat) × Option Nat :=
-  (o.hooks.map renderStep,
+def renderOutcome (app : App) (o : Outcome) : List Pyr.Gen.X01.Step × (String × Nat) × Option Nat :=
+  (o.hooks.map (renderStep app),
    (match o.final with
     | .response (.view t) => ("view", t)
     | .response (.self _ st) => ("status", st.getD 0)
@@ -443,14 +479,18 @@ def renderOutcome (o : Outcome) : List Pyr.Gen.X01.Step × (String × Nat) × Op
 (`extract/x01.py` runs the router of the tree under test on a scratch application and writes what logging subscribers,
 factories and a logging traverser observed into `Gen/X01.lean`): for six request shapes — traversal fall-through, a route with
 its own factory, a `*traverse` route with global views, a raising route factory rendered by a ROUTE-BOUND exception view,
-not found, undecodable path — the order NewRequest → BeforeTraversal → root/route factory → traverser → ContextFound, the
+not found, undecodable path, and a context MARKED with an interface by a ContextFound subscriber whose only view is registered
+for that marker (found: the lookup classifies the context after the ContextFound subscribers ran, with what the context
+provides at that moment — the `provides` column, read by the probe through zope.interface) — the order NewRequest → BeforeTraversal → root/route factory → traverser → ContextFound, the
 attributes visible at each (`matched_route`, `matchdict` and the route's `request_iface` from BeforeTraversal on; `root` from
 the traverser on; `context` / `view_name` at ContextFound), the answering view and the caught exception are exactly the
 model's.  Fails closed when the probe could not run on the tree's own `pyramid`. -/
 theorem probed_router_matches_model :
     Pyr.Gen.X01.ownTree = true ∧
-    Pyr.Gen.X01.probed = probeReqs.map fun nr =>
-      (nr.1, renderOutcome (handle probeApp ⟨some nr.2, none, [], base0⟩)) := by decide
+    Pyr.Gen.X01.probed = (probeReqs.map fun nr =>
+      (nr.1, renderOutcome probeApp (handle probeApp ⟨some nr.2, none, [], base0⟩))) ++
+      [("marked-at-context-found",
+        renderOutcome probeAppMarked (handle probeAppMarked ⟨some [47, 97, 47, 109], none, [], base0⟩))] := by decide
 
 /-- **F-C02a leaks through unchanged** (why `handle_eq_spec_vroot_partial` compares up to `traversed`): virtual root `/a`,
 path `/zz` on the probe application — the walk consumes `a` and stops at `zz`; the composed model (like the real traverser)
